@@ -24,6 +24,7 @@ struct Config {
     label: String,
     subject: Subject,
     model: BTreeMap<ObjectId, Object>,
+    trailer: lopdf::Dictionary,
     version: String,
     mark_required: bool,
     revisions: usize,
@@ -40,6 +41,7 @@ fn configs(n_docs: usize) -> Vec<Config> {
                 label: format!("doc{} {} plain", i, if table { "table" } else { "stream" }),
                 subject: Subject::Plain(doc.clone()),
                 model: doc.objects.clone(),
+                trailer: doc.trailer.clone(),
                 version: doc.version.clone(),
                 mark_required: true,
                 revisions: 1,
@@ -60,6 +62,7 @@ fn configs(n_docs: usize) -> Vec<Config> {
                 label: format!("doc{} {} incremental", i, if table { "table" } else { "stream" }),
                 subject: Subject::Inc(Box::new(inc)),
                 model,
+                trailer: doc.trailer.clone(),
                 version: doc.version.clone(),
                 mark_required: true,
                 revisions: 2,
@@ -103,7 +106,13 @@ fn validate(bytes: &[u8], cfg: &Config) -> Result<(), String> {
     if let Some(m) = cmp::diff_objects(&cfg.model, &d.objects) {
         return Err(format!("strict reader: {}", m));
     }
+    if let Some(m) = cmp::diff_trailer(&cfg.trailer, &d.trailer) {
+        return Err(format!("strict reader: {}", m));
+    }
     let l = util::load(bytes)?;
+    if let Some(m) = cmp::diff_trailer(&cfg.trailer, &l.trailer) {
+        return Err(format!("lopdf loader: {}", m));
+    }
     if l.version != cfg.version {
         return Err("version differs".into());
     }
